@@ -235,6 +235,10 @@ Chk_Rain(t, s, e) == Tag("RainPartition", RainC(K(t), s.ws, WsOf(s, e), RainArgs
                               mgmtOfToday |-> LET fm == Field(t, s.d.gs /\ s.clk.season >= 0)
                                               IN e.bunds = fm.bunds /\ Eq(e.zBund, fm.zBund) /\ e.srInhb = fm.srInhb ])
 
+\* the depth of the constant-depth strategy configured for step n: the caller may set it before every call (depth plan of the scenario)
+DepthOn(t, n) == LET c == Cfg(t)
+                     P == IF Has(c, "depthPlan") THEN {i \in 1..Len(c.depthPlan) : c.depthPlan[i]["from"] <= n} ELSE {}
+                 IN IF P = {} THEN c.depth ELSE c.depthPlan[MaxOf(P)].depth
 \* ---- Irrigate
 IrrArgs(t, s, e) ==
   [method |-> e.method, gs |-> e.gs, dap |-> e.dap, stage |-> IF e.stage \in 1..4 THEN e.stage ELSE 1, smt |-> e.smt,
@@ -248,7 +252,7 @@ IrrigateAll(t, s, e) ==
   IrrigateC(IrrArgs(t, s, e)) @@
   [ \* the decision reads the configured strategy and parameters (fallow management before the first season)
     cfgMethod |-> inSeasonMgmt => (e.method = c.method /\ Eq(e.appEff, c.appEff) /\ Eq(e.maxIrr, c.maxIrr)
-                                   /\ Eq(e.maxSeason, c.maxSeason) /\ e.interval = c.interval /\ Eq(e.depth, c.depth)
+                                   /\ Eq(e.maxSeason, c.maxSeason) /\ e.interval = c.interval /\ Eq(e.depth, DepthOn(t, s.clk.tsc))
                                    /\ Len(e.smt) = Len(c.smt) /\ \A i \in 1..Len(c.smt) : Eq(e.smt[i], c.smt[i])),
     cfgFallow |-> (~inSeasonMgmt) => e.method = 0,
     gsAgrees  |-> e.gs = s.d.gs,
@@ -407,8 +411,9 @@ DayEndIrrC(t, s, e) ==
     dailyMax  |-> m \in {1, 2, 3, 5} => LeTol(f.IrrDay, c.maxIrr, Tol9),
     seasonMax |-> (e.gs /\ m \in {1, 2, 3, 5}) => LeTol(Add(s.seasonIrr, f.IrrDay), c.maxSeason, Tol6),
     isDecision|-> (e.gs /\ m # 4) => Eq(f.IrrDay, s.d.irr),
-    constDepth|-> (e.gs /\ m = 5) => Near(f.IrrDay, IF Gt(Add(s.seasonIrr, Min(c.maxIrr, c.depth)), c.maxSeason)
-                                                      THEN Max(Sub(c.maxSeason, s.seasonIrr), Z) ELSE Max(Min(c.maxIrr, c.depth), Z), Tol6),
+    constDepth|-> (e.gs /\ m = 5) => LET dep == DepthOn(t, s.clk.tsc) IN
+                                     Near(f.IrrDay, IF Gt(Add(s.seasonIrr, Min(c.maxIrr, dep)), c.maxSeason)
+                                                    THEN Max(Sub(c.maxSeason, s.seasonIrr), Z) ELSE Max(Min(c.maxIrr, dep), Z), Tol6),
     netSign   |-> m = 4 => LeTol(Z, f.IrrDay, NetSlack(s.d.nRoot)) ]
 ParamsC(t, s, e) ==
   LET a == s.phash b == e.phash IN
@@ -431,6 +436,8 @@ Chk_DayEnd(t, s, e) ==
                                    \* water can only have been standing (and be released) on a field that has bunds in some period
                                    @@ [ negInflNeedsBunds |-> (IsNeg(led.infl) /\ ~Near(led.infl, Z, Tol9)) =>
                                                                 (Cfg(t).field.effBunds \/ Cfg(t).fallow.effBunds),
+                                        \* the irrigation REPORTED for the day is the one that was applied (and partitioned) that day
+                                        reportedIrr |-> (e.gs /\ (IF s.clk.season >= 0 THEN Cfg(t).method ELSE 0) \in {1, 2, 3, 5} /\ Finite(e.flux.IrrDay)) => Eq(e.flux.IrrDay, s.d.irr),
                                         \* ... and only on the day the bunds ARE removed (or lowered): they stood on the previous simulated day
                                         negInflOnRemovalDay |-> (IsNeg(led.infl) /\ ~Near(led.infl, Z, Tol9) /\ s.bprev.known) =>
                                                                 (s.bprev.eff /\ (~s.d.bundsToday \/ Lt(s.d.zBund, s.bprev.z))) ])
